@@ -79,7 +79,7 @@ fn interp(p: &Program, horizon: usize) -> Result<Vec<String>, String> {
     Ok(log)
 }
 
-const C33_MENU: &[&str] = &["X 0", "PRAGMA p", "PULSE 0 \"f\" w", "MOVE a 1", "ADD a 1", "MEASURE 0 ro", "RX(a) 1"];
+const C33_MENU: &[&str] = &["X 0", "PRAGMA p", "PULSE 0 \"f\" w", "MOVE a 1", "ADD a 1", "MEASURE 0 ro", "RX(a) 1", "LABEL @inner"];
 const C33_DEFS: &str = "DECLARE a INTEGER\nDECLARE ro BIT\nDEFFRAME 0 \"f\":\n    A: 1\nDEFWAVEFORM w:\n    1\nDEFCAL X 0:\n    NOP\nDEFCAL MEASURE 0 dest:\n    NOP\nDEFGATE G AS PERMUTATION:\n    0, 1\nDEFCIRCUIT CC:\n    X 0\nPRAGMA EXTERN f \"INTEGER\"\n";
 
 fn c33_check(body: &[usize], iters: u32, idx: u64, ph: bool) -> Vec<(String, String)> {
@@ -87,7 +87,8 @@ fn c33_check(body: &[usize], iters: u32, idx: u64, ph: bool) -> Vec<(String, Str
         let mut out = vec![];
         let src = format!("{C33_DEFS}{}\n", body.iter().map(|k| C33_MENU[*k]).collect::<Vec<_>>().join("\n"));
         let p = Program::from_str(&src).expect("c33 program");
-        let base = interp(&p, 1000).expect("base program runs");
+        // a body that repeats a label is not a well-formed program: outside the property
+        let Ok(base) = interp(&p, 1000) else { return out };
         let tgt = if ph { Target::Placeholder(TargetPlaceholder::new("loop".into())) } else { Target::Fixed("loop-start".into()) };
         let mut w = p.wrap_in_loop(MemoryReference::new("cnt".into(), idx), tgt, iters);
         if ph {
@@ -149,7 +150,7 @@ pub static C33: PropDef = PropDef {
     id: "C33",
     level: "model_checking",
     engine: "sweep",
-    rule: "every body of length <= 3 (thorough 4) over {X 0, PRAGMA p, PULSE, MOVE a 1, ADD a 1, MEASURE 0 ro, RX(a) 1} on a header with one definition of every kind x n in 0..4 (thorough 0..8) x counter reference cnt[0] / cnt[1] x fixed / placeholder start label; the wrapped program is executed by a small classical interpreter (states = (pc, memory), horizon 10000 steps) and its trace of non-control instructions is compared with body^n; n = 0 / n = 1 clauses; definitions preserved. non-trivial = case with n >= 2 and a non-empty body",
+    rule: "every body of length <= 3 (thorough 4) over {X 0, PRAGMA p, PULSE, MOVE a 1, ADD a 1, MEASURE 0 ro, RX(a) 1, LABEL @inner} on a header with one definition of every kind x n in 0..4 (thorough 0..8) x counter reference cnt[0] / cnt[1] x fixed / placeholder start label; the wrapped program is executed by a small classical interpreter (states = (pc, memory), horizon 10000 steps) and its trace of non-control instructions is compared with body^n; n = 0 / n = 1 clauses; definitions preserved. non-trivial = case with n >= 2 and a non-empty body",
     assumptions: &["interpreter mc/src/props/prog.rs interp(): integer MOVE/ADD/SUB, LABEL/JUMP/JUMP-WHEN/JUMP-UNLESS/HALT; everything else is logged as executed"],
     run: |ctx| {
         let l = ctx.tier.pick(3, 4);
@@ -219,12 +220,16 @@ fn c34_menu() -> PhMenu {
         items.push((nm("SetPhase"), Instruction::SetPhase(SetPhase::new(f.clone(), one.clone()))));
         items.push((nm("ShiftFrequency"), Instruction::ShiftFrequency(ShiftFrequency::new(f.clone(), one.clone()))));
         items.push((nm("SwapPhases"), Instruction::SwapPhases(SwapPhases::new(f.clone(), FrameIdentifier::new("g".into(), vec![Qubit::Fixed(1)])))));
+        items.push((nm("SwapPhases2nd"), Instruction::SwapPhases(SwapPhases::new(FrameIdentifier::new("g".into(), vec![Qubit::Fixed(1)]), f.clone()))));
+        items.push((nm("RawCapture"), Instruction::RawCapture(RawCapture::new(false, f.clone(), one.clone(), MemoryReference::new("r".into(), 0)))));
+        items.push((nm("Gate2"), Instruction::Gate(Gate::new("CNOT", vec![], vec![Qubit::Fixed(1), q.clone()], vec![GateModifier::Dagger]).unwrap())));
     }
     for (ti, t) in ts.iter().enumerate() {
         let nm = |s: &str| format!("{s}(t{ti})");
         items.push((nm("Label"), Instruction::Label(Label::new(t.clone()))));
         items.push((nm("Jump"), Instruction::Jump(Jump::new(t.clone()))));
         items.push((nm("JumpWhen"), Instruction::JumpWhen(JumpWhen::new(t.clone(), MemoryReference::new("r".into(), 0)))));
+        items.push((nm("JumpUnless"), Instruction::JumpUnless(JumpUnless::new(t.clone(), MemoryReference::new("r".into(), 0)))));
     }
     PhMenu { items, qph: vec![p1, p2], tph: vec![t1, t2, t3] }
 }
@@ -237,6 +242,7 @@ fn quals(i: &Instruction) -> Vec<Qubit> {
         Instruction::Fence(f) => f.qubits.clone(),
         Instruction::Pulse(p) => p.frame.qubits.clone(),
         Instruction::Capture(p) => p.frame.qubits.clone(),
+        Instruction::RawCapture(p) => p.frame.qubits.clone(),
         Instruction::SetPhase(p) => p.frame.qubits.clone(),
         Instruction::ShiftFrequency(p) => p.frame.qubits.clone(),
         Instruction::SwapPhases(s) => s.frame_1.qubits.iter().chain(s.frame_2.qubits.iter()).cloned().collect(),
@@ -419,7 +425,7 @@ pub static C34: PropDef = PropDef {
     id: "C34",
     level: "exploration",
     engine: "sweep",
-    rule: "every body of length <= 2 (thorough 3) over 58 instructions, and one step deeper over the label-only and a reduced qubit sub-menu: 10 qubit-bearing kinds (gate, MEASURE, RESET, DELAY, FENCE, PULSE, CAPTURE, SET-PHASE, SHIFT-FREQUENCY, SWAP-PHASES) x qubit in {0, 1, P1, P2} and 3 label-bearing kinds x target in {a, a_0, a_1, T1(a), T2(a), T3(a_0)}; default resolution: nothing left, function, injective, avoids fixed qubits / labels of the body; custom resolvers: every subset of the 5 placeholders mapped -> exactly those replaced, with the returned values. non-trivial = body containing a placeholder",
+    rule: "every body of length <= 2 (thorough 3) over 76 instructions, and one step deeper over the label-only and a reduced qubit sub-menu: 13 qubit-bearing forms (gate, two-qubit modified gate, MEASURE, RESET, DELAY, FENCE, PULSE, CAPTURE, RAW-CAPTURE, SET-PHASE, SHIFT-FREQUENCY, SWAP-PHASES first / second frame) x qubit in {0, 1, P1, P2} and 4 label-bearing kinds (LABEL, JUMP, JUMP-WHEN, JUMP-UNLESS) x target in {a, a_0, a_1, T1(a), T2(a), T3(a_0)}; default resolution: nothing left, function, injective, avoids fixed qubits / labels of the body; custom resolvers: every subset of the 5 placeholders mapped -> exactly those replaced, with the returned values. non-trivial = body containing a placeholder",
     assumptions: &["independent syntactic walk over qubit- and label-bearing positions (mc/src/props/prog.rs quals/targ)"],
     run: |ctx| {
         let m = c34_menu();
@@ -428,7 +434,7 @@ pub static C34: PropDef = PropDef {
         let is_ph = |m: &PhMenu, k: usize| ["(q2)", "(q3)", "(t2)", "(t3)", "(t4)"].iter().any(|t| m.items[k].0.contains(t));
         // sub-menus explored one step deeper: labels only, and a reduced qubit menu
         let label_items: Vec<usize> = (0..m.items.len()).filter(|k| m.items[*k].0.contains("(t")).collect();
-        let qubit_items: Vec<usize> = (0..m.items.len()).filter(|k| ["Gate(", "SetPhase(", "SwapPhases(", "Capture(", "Measure("].iter().any(|p| m.items[*k].0.starts_with(p))).collect();
+        let qubit_items: Vec<usize> = (0..m.items.len()).filter(|k| ["Gate(", "Gate2(", "SetPhase(", "SwapPhases(", "SwapPhases2nd(", "Capture(", "RawCapture(", "Measure("].iter().any(|p| m.items[*k].0.starts_with(p))).collect();
         let all_items: Vec<usize> = (0..m.items.len()).collect();
         for (space, items, maxlen) in [("all", &all_items, l), ("labels", &label_items, l + 1), ("qubits", &qubit_items, l + 1)] {
             for len in 1..=maxlen {
